@@ -1,0 +1,11 @@
+//go:build verif
+
+package evidence
+
+import "github.com/kardiachain/go-kardia/types"
+
+// Exported accessors used only by the verification harness (round-trip check of
+// well-formed evidence messages).
+
+func VerifEncodeMsg(evis []types.Evidence) ([]byte, error) { return encodeMsg(evis) }
+func VerifDecodeMsg(bz []byte) ([]types.Evidence, error)   { return decodeMsg(bz) }
